@@ -2,7 +2,7 @@ PID = "C17"
 WORKER = "w_c17"
 HEADER = "From Coq Require Import List ZArith QArith Qcanon.\nFrom Dimod Require Import Base.Util Model.Poly Model.Comb Gen.Gen_Gates Gen.Gen_Combinations Gen.Gen_Graph Model.Gates Model.Knap Model.QKnap Gen.Gen_Knap Model.MultCircuit Model.Qap Model.Magic Model.Sat Gen.Gen_Sat Model.ChkC17.\nImport ListNotations."
 CHECK_FN = "check"
-N_QUICK = 1600
+N_QUICK = 1200      # wall time: see the stage breakdown in the round-5 report; the worker + Coq evaluation share is ~80 s at 1600
 N_THOROUGH = 30000
 SHARD = 100
 TIMEOUT = 2400
@@ -15,7 +15,7 @@ RULE = ("gates (and/or/xor/halfadder/fulladder) with random distinct labels (int
         "quadratic_knapsack / quadratic_multi_knapsack (translated constructions as the model, all assignments); anti_crossing_clique / _loops (monitored); "
         "random_nae3sat / random_2in4sat / random_kmcsat (n <= 6, planted or not, labels, seeds incl. 0): BQM against the clauses replayed from the seed, all spin assignments; "
         "magic_square(n <= 4, power 1/2): constraints against Model/Magic.v, check_feasible on magic / Latin / random integer squares; "
-        "quadratic_assignment (n <= 3, symmetric distances, list / array input) against Model/Qap.v and the documented cost on every placement; "
+        "quadratic_assignment (n <= 3, symmetric distances with ARBITRARY (asymmetric, directed) flows, list / array input) against Model/Qap.v and the documented cost on every placement; "
         "knapsack / bin packing / multi-knapsack CQMs (random_* with seeds and direct constructors) on all assignments of small "
         "instances; random generators (uniform, randint, gnp, gnm, ran_r, doped, power_r, frustrated_loop, chimera_anticluster) over all graph-argument forms, "
         "each case re-examined for 16 further seeds derived from its seed (range / support clauses, offset included); "
@@ -39,8 +39,10 @@ TRUSTED = ["translators/gates_tables.py (fail-closed ast translator: gates.py ->
 ASSUMPTIONS = ["the coefficients a BQM reports define its energy, and BQM.energies / CQM.check_feasible evaluate them (property C01/C08)",
                "labels passed to a generator are pairwise distinct",
                "IEEE-754 arithmetic is exact on the small dyadic/integer coefficients generated"]
-PARTIAL = ["quadratic_assignment: C17_qap_cost_symmetric needs a symmetric distance matrix; for an asymmetric one the generated objective is "
-           "not the documented cost (C17_qap_asymmetric_refuted); asymmetric matrices are kept out of the random stream (QAP_ASYMMETRIC in w_c17.py); "
+PARTIAL = ["quadratic_assignment: the documented cost holds for ANY flow matrix (asymmetric / directed flows are in the stream) with a symmetric "
+           "distance matrix (C17_qap_cost_symmetric, no hypothesis on the flows) and, for n >= 2, for all flows and placements ONLY then "
+           "(C17_qap_exact_iff_symmetric; already symmetric flows fail with an asymmetric distance: C17_qap_symmetric_flow_asymmetric_distance_refuted, "
+           "C17_qap_asymmetric_refuted); asymmetric DISTANCE matrices are kept out of the random stream (QAP_ASYMMETRIC in w_c17.py); "
            "the mirror Model/Qap.v is hand written, tied coefficient-wise and shape-locked to the source (no construction translator)",
            "magic_square: constraints tied coefficient-wise and on integer assignments, mirror shape-locked; only necessity of the uniqueness "
            "constraint is a theorem (C17_magic_uniqueness_necessary); it is not sufficient (C17_magic_uniqueness_not_sufficient_refuted)",
@@ -59,8 +61,11 @@ PARTIAL = ["quadratic_assignment: C17_qap_cost_symmetric needs a symmetric dista
            "exactly the Chimera(m,n,t) graph written down independently in the worker (or the given subgraph, in its node order), intra-tile "
            "biases +-1, inter-tile +-multiplier, zero linear/offset, m/n/t = 0, seed; frustrated_loop: variables/interactions exactly the declared "
            "graph (every graph-argument form), integer couplings with |J| <= R, zero linear/offset, planted assignment (all +1, its negation, or "
-           "planted_solution) a ground state on all 2^n assignments, a single unplanted loop frustrated by exactly one edge, guards, seed; "
-           "both over 1+16 / 1+8 seeds per case; no theorem",
+           "planted_solution) a ground state on all 2^n assignments, a single unplanted loop frustrated by exactly one edge, one planted loop = one "
+           "simple cycle with exactly one +1 coupling, guards, seed; both over 1+16 / 1+8 seeds per case. Theorems for frustrated_loop on the "
+           "code-shaped loop contribution with the PRNG's choices as parameters (Model/FrustLoop.v): closed walks multiply to +1, an odd number of "
+           "anti-ferromagnetic couplers costs >= -(L-2), the planted all-(+1) state attains it on every loop and minimises every sum of loops "
+           "(C17_fcl_*); the accumulation over loops / the R cut-off and chimera_anticluster, gnp/gnm_random_bqm, doped have no theorem",
            "not covered at all (outside the statement text and anchors): "
            "binary_paint_shop_problem, wireless.mimo / coordinated_multipoint (floating-point channel models, not exact on dyadic data); "
            "integer.binary_encoding belongs to C16 (C16_binary_encoding_facts)"]
